@@ -493,11 +493,44 @@ def dynamic_docs(t):
     return docs
 
 
+def initialiser_docs(t):
+    """every initialiser list of up to 4 (quick: 3) elements for a record of 1..3 fields and for arrays: positional values, named
+    fields in any order (known, repeated, unknown), nested lists, values of the wrong type - the type checker's bookkeeping of the
+    current field is the subject"""
+    import itertools
+    docs = []
+    L = 4 if t == "thorough" else 3
+    for nf in (1, 2, 3):
+        fields = ["fa", "fb", "fc"][:nf]
+        rec = "struct { %s }" % " ".join(("int %s;" if k != 1 else "bool %s;") % f for k, f in enumerate(fields))
+        elems = ["1", "true", "{ 1 }", "nosuch: 1", "x"] + ["%s: 1" % f for f in fields]
+        for n in range(0, L + 1):
+            for combo in itertools.product(elems, repeat=n):
+                init = "{ %s }" % ", ".join(combo)
+                for qual in ("", "const "):
+                    if qual and n == L:
+                        continue
+                    docs.append(("sem:init-record:%d:%s%s" % (nf, qual, init), PS.ta_doc(gdecl=PS.GDECL + X.esc("%s%s rv = %s;" % (qual, rec, init))), "xml"))
+    arr_elems = ["1", "{ 1, 2 }", "{ 1 }", "x", "fa: 1", "{ }"]
+    for decl in ("int av[2]", "int av[2][2]", "int av[0]", "struct { int fa; int fb; } av[2]", "int av[3]"):
+        for n in range(0, 4):
+            for combo in itertools.product(arr_elems, repeat=n):
+                init = "{ %s }" % ", ".join(combo)
+                docs.append(("sem:init-array:%s:%s" % (decl, init), PS.ta_doc(gdecl=PS.GDECL + X.esc("%s = %s;" % (decl, init))), "xml"))
+    # the same through a template-local declaration, a function-local one and whole-file XTA (a reduced set)
+    for init in ("{ fb: 1, 2 }", "{ fc: 1, 2, 3 }", "{ fb: 1, fa: 2, 3 }", "{ fa: 1, fa: 2 }", "{ 1, fa: 2 }", "{ fc: 1, fa: 2, 3, 4 }", "{ fb: { 1 } }"):
+        d = "struct { int fa; int fb; int fc; } rv = %s;" % init
+        docs.append(("sem:init-local:" + init, PS.ta_doc(ldecl="int l; clock lx; " + X.esc(d)), "xml"))
+        docs.append(("sem:init-function:" + init, PS.ta_doc(gdecl=PS.GDECL + X.esc("void fi() { %s }" % d)), "xml"))
+        docs.append(("sem:init-xta:" + init, PS.GDECL + d + "\nprocess T() { " + d + " state A; init A; }\nsystem T;\n", "xta"))
+    return docs
+
+
 def semantic_shard(arg):
     t, i, n = arg
     part = engine.Part()
     w = engine.worker("san")
-    docs = [d for k, d in enumerate(semantic_docs(t) + dynamic_docs(t)) if k % n == i]
+    docs = [d for k, d in enumerate(semantic_docs(t) + dynamic_docs(t) + initialiser_docs(t)) if k % n == i]
     for kind in ("xml", "xmlq", "xta", "xta-old"):
         sel = [d for d in docs if d[2] == kind]
         res = X.run_docs(w, [d[1] for d in sel], want=["queries"] if kind == "xmlq" else [], batch=25, kind="xml" if kind.startswith("xml") else "xta",
@@ -662,8 +695,10 @@ def main():
                 "MAXLEN=4000 in 16 position classes, sanitized build. (5) %d documents with semantically invalid but syntactically clean "
                 "declarations (alone, in pairs, in four slots) and labels (the builder's error branches), and every dynamic-template "
                 "construct (4 quantifiers over instances x 7 kinds of template operand x 28 body shapes; spawn/exit/numOf x 21 operand "
-                "shapes) in guards, invariants, updates, probabilities, function bodies and SMC / symbolic queries, sanitized build."
-                % (len(cfgs), len(growth_families()), sizes, len(length_docs(t)), len(semantic_docs(t)) + len(dynamic_docs(t))))
+                "shapes) in guards, invariants, updates, probabilities, function bodies and SMC / symbolic queries, and every initialiser "
+                "list of up to 3 (thorough: 4) elements (positional, named known / repeated / unknown field, nested, wrong type) for records "
+                "of 1-3 fields and for arrays, sanitized build."
+                % (len(cfgs), len(growth_families()), sizes, len(length_docs(t)), len(semantic_docs(t)) + len(dynamic_docs(t)) + len(initialiser_docs(t))))
     rep.nontrivial_count = states + len(xml_docs(t))
     rep.assumptions = ["digest pruning is sound if the digest covers everything later callbacks read (argued in DESIGN.md §3/C01); the "
                        "'shape' digest runs are heuristic and are not counted as exhaustive",
